@@ -218,7 +218,11 @@ func zzH_STRs() {
 	var hErrs []error
 	handlerDone := false
 	writeFirst := vChoose("handler-writes-first", 2) == 1
+	badPush := vParam("str.badpush", 1) == 1 && vChoose("handler-bad-write", 2) == 1
 	svc.streamFn = func(st *ZZStream) {
+		if badPush {
+			st.s.WriteMessage(42) // a value the body codec cannot encode: this write fails, nothing else
+		}
 		write := func() {
 			for i := 0; i < W; i++ {
 				st.s.WriteMessage(&out[i])
@@ -259,6 +263,9 @@ func zzH_STRs() {
 		m.deliver(zzRequest(5, zzUpgBytes(zzUpgStreaming), "", in[i]))
 	}
 	vQuiesce()
+	// an ordinary call on the same connection is unaffected by whatever happened on the stream
+	m.deliver(zzRequest(9, nil, "S.Echo", []byte{0x33}))
+	vQuiesce()
 	ending := vChoose("ending", 2)
 	if ending == 0 {
 		m.deliver(zzRequest(5, zzUpgBytes(zzUpgCloseStream), "", nil))
@@ -279,7 +286,18 @@ func zzH_STRs() {
 		res := zzDecodeResponses(m)
 		var pushes [][]byte
 		acks := 0
+		probes := 0
+		for _, r := range res {
+			if r.Seq == 9 {
+				probes++
+				vAssert(r.Error == "" && vEqBytes(r.Reply, []byte{0x52, 0x33}), "unary-call-unaffected-by-streams")
+			}
+		}
+		vAssert(probes == 1, "unary-call-unaffected-by-streams")
 		for i, r := range res {
+			if r.Seq == 9 {
+				continue
+			}
 			if r.Seq == 5 && len(r.Reply) == 0 {
 				acks++
 				if len(pushes) == 0 {
@@ -295,7 +313,7 @@ func zzH_STRs() {
 		for i := 0; i < len(pushes) && i < W; i++ {
 			vAssert(vEqBytes(pushes[i], out[i]), "pushes-in-order-unmodified")
 		}
-		if len(res) > 0 && writeFirst && W > 0 {
+		if len(res) > 0 && writeFirst && W > 0 && !badPush {
 			vAssert(res[0].Seq == 5 && len(res[0].Reply) == 0, "ack-precedes-first-push")
 		}
 		vAssert(vBlocked() == 0, "no-goroutine-left")
